@@ -101,6 +101,38 @@ def families(tier, seed, b):
                 B.add({"op": "call", "fn": "Array", "args": [{"l": items}]})
                 B.add({"op": "setitem", "a": {"r": base}, "i": ri, "v": rv, "tag": "main"})
                 progs.append(B.build())
+    # the same calls AFTER a region was entered and left (guard 0 / 1, a lazily evaluated selection, a region left through an exception
+    # the program catches): whatever the region leaves behind must not change what a later, unrelated call does
+    def after(pid, pre, meta, opnds, mk):
+        B = gen.Builder(pid, "plain", None, dict(meta, op="after_%s/%s" % (pre, meta["op"])))
+        refs = [B.opnd(o) for o in opnds]
+        rz = B.opnd(("S", 3))
+        rg = B.opnd(("SB", 1 if pre == "g1" else 0))
+        body = [{"op": "bin", "name": "mul", "a": rz, "b": rz}]
+        if pre in ("g0", "g1"):
+            B.add({"op": "guarded", "cond": rg, "body": body})
+        elif pre == "ite0":
+            n = B.nreg
+            B.add({"op": "ite", "cond": rg, "t": {"body": body, "ret": {"r": n}}, "f": rz})
+        else:
+            B.add({"op": "try", "body": [{"op": "guarded", "cond": rg, "body": [{"op": "raise"}]}]})
+        st = mk(refs)
+        st["tag"] = "main"
+        B.add(st)
+        progs.append(B.build())
+    for pre in ("g0", "g1", "ite0", "exc0"):
+        for nm in gen.ASSERT1 + ["to_bits", "check_positive", "check_zero"]:
+            for x in core:
+                after("b%d/after/%s/%s/%d" % (b, pre, nm, x), pre, {"op": nm, "kinds": "S"}, [("S", x)], lambda r, nm=nm: {"op": "meth", "name": nm, "a": r[0]})
+        for nm in gen.ASSERT2:
+            for (x, y) in pairs(small):
+                after("b%d/after/%s/%s/%d,%d" % (b, pre, nm, x, y), pre, {"op": nm, "kinds": "SS"}, [("S", x), ("S", y)],
+                      lambda r, nm=nm: {"op": "meth", "name": nm, "a": r[0], "args": [r[1]]})
+        for op in ("truediv", "floordiv", "lt", "rshift", "and"):
+            for (x, y) in pairs(small):
+                for kb in ("S", "c"):
+                    after("b%d/after/%s/%s/S%s/%d,%d" % (b, pre, op, kb, x, y), pre, {"op": op, "kinds": "S" + kb}, [("S", x), (kb, y)],
+                          lambda r, op=op: {"op": "bin", "name": op, "a": r[0], "b": r[1]})
     # random compositions
     rg = gen.RandGen(seed * 1000003 + b, b)
     nrand = 300 if tier == "quick" else 4000
